@@ -1,14 +1,16 @@
 #!/bin/bash
-# tools/try_seed.sh <patch.diff> <check ids...>   apply a seeded change to /repo, run the checks (quick), revert
-patch="$1"; shift
-cd /repo || exit 2
-if ! git diff --quiet; then echo "/repo not clean"; exit 2; fi
-git apply "$patch" || { echo "patch does not apply"; exit 2; }
-# evidence files are rewritten by every run: keep the ones of the unchanged tree
-evbak=$(mktemp -d /tmp/evbak.XXXXXX); cp -a /verif/evidence/. "$evbak"/
-trap 'git -C /repo checkout -- . ; cp -a "$evbak"/. /verif/evidence/; rm -rf "$evbak"' EXIT
+# tools/try_seed.sh <patch.diff> <check ids...>
+# applies a seeded change to a scratch worktree of /repo HEAD (never to /repo itself), runs the checks (quick
+# unless TIER is set) against that worktree through GSVERIF_REPO, removes the worktree.  Evidence of these runs goes to a
+# scratch directory.
+patch="$(readlink -f "$1")"; shift
+name="try_$$"; wt="/tmp/wt/$name"
+/verif/tools/mkworktree.sh "$name" >/dev/null || exit 2
+evdir=$(mktemp -d /tmp/evtry.XXXXXX)
+trap 'git -C /repo worktree remove --force "$wt" 2>/dev/null; rm -rf "$evdir"' EXIT
+( cd "$wt" && git apply "$patch" ) || { echo "patch does not apply"; exit 2; }
 for c in "$@"; do
-  out=$(cd /verif && VERIF_TIER=${TIER:-quick} ./check $c --tier ${TIER:-quick} 2>&1); rc=$?
+  out=$(cd /verif && GSVERIF_REPO="$wt" GSVERIF_EVIDENCE_DIR="$evdir" ./check $c --tier ${TIER:-quick} 2>&1); rc=$?
   echo "== $c exit=$rc  $(echo "$out" | grep -c '^VIOLATION') violation lines"
   echo "$out" | grep -A1 '^VIOLATION' | head -${LINES_SHOWN:-6} | cut -c1-400
   echo "$out" | tail -1 | cut -c1-300
